@@ -69,6 +69,22 @@ func c02ConfigProperty(t *rapid.T) {
 				x = cfg.GenClaim(t, s)
 			case 3:
 				x = cfg.GenVstorage(t, s)
+			case 4:
+				// every provider withdraws an amount that is not a whole number of pledge units and then
+				// everything that is still free: the network may end with no capacity at all
+				if rapid.IntRange(0, 2).Draw(t, "drainAll") == 0 {
+					for _, p := range cfg.Providers {
+						r1 := NewAction("remove_vstorage", p)
+						r1.Size = uint64(rapid.SampledFrom([]int{1, 500_000, 999_999, 1_500_000}).Draw(t, "unaligned"))
+						s.Do(r1)
+						if pl, ok := s.Last.Pledges[s.bech(p)]; ok && pl.TotalStorage > pl.UsedStorage {
+							r2 := NewAction("remove_vstorage", p)
+							r2.Size = uint64(pl.TotalStorage - pl.UsedStorage)
+							s.Do(r2)
+						}
+					}
+					s.Label("c02-everybody-withdrew")
+				}
 			}
 			if x == nil {
 				x = cfg.GenAdvance(t, s)
